@@ -48,19 +48,21 @@ def userUpd : UserUpd
 
 /-- user dividers, mirrored in `harness/props/c11.py` -/
 def userDiv : UserDiv
-  | "frac" => some fun v st cfg => match v, st, cfg with
+  | "frac" => some fun v st cfg => match v.view, st, cfg with
     | .int m, none, some (.dict c) =>
       match KV.lookup "num" c, KV.lookup "den" c with
       | some (.int n), some (.int d) =>
         if d = 0 then .error .exception
         else let a := Int.fdiv (m * n) d; .ok (some (.int a, .int (m - a)))
+      | some _, some _ => .error .typeError
       | _, _ => .error .keyError
     | _, _, _ => .error .typeError
-  | "with_state" => some fun v st cfg => match v, st, cfg with
+  | "with_state" => some fun v st cfg => match v.view, st, cfg with
     | .int m, some (.dict s), none =>
-      match KV.lookup "other" s with
+      match (KV.lookup "other" s).map Val.view with
       | some (.int o) => .ok (some (.int (m + o), .int (m - o)))
-      | _ => .error .keyError
+      | some _ => .error .typeError
+      | none => .error .keyError
     | _, _, _ => .error .typeError
   | "skip" => some fun _ st cfg => match st, cfg with
     | none, none => .ok none
